@@ -181,6 +181,9 @@ impl Property for C14 {
             case.set("fifo", i64::from(rng.chance(1, 2)));
         }
         if !process && rng.chance(1, 6) {
+            case.set("readfail", rng.range(1, 1000) as i64);
+        }
+        if !process && rng.chance(1, 6) {
             // the same world with a standard output that stops accepting bytes somewhere
             // inside the rows: the run must end (with an error), not keep reading
             case.set("sinkfail", rng.range(1, 1000) as i64);
@@ -359,19 +362,54 @@ impl Property for C14 {
         if case.family == "endless-process" {
             return check_process(case, &prefix, endless, d, &l1, ctx);
         }
+        // the endless input breaks before the limit is reached: a read failure (that stays,
+        // or goes away again) somewhere before the byte at which the last row was complete
+        let rfrac = case.param("readfail");
+        if rfrac > 0 && d > 0 && l1.outcome.is_ok() {
+            let k = ((rfrac as usize - 1) * d) / 1000;
+            let mut spec = case_spec(case, &prefix);
+            spec.byte_budget = prefix.len().max(d) + BUDGET_EXTRA;
+            spec.max_events = 2_000_000;
+            spec.rfault = Some(Fault {
+                at: k,
+                kind: *[ErrKind::WouldBlock, ErrKind::Other, ErrKind::TimedOut, ErrKind::InvalidData]
+                    .get((rfrac as usize) % 4)
+                    .unwrap_or(&ErrKind::Other),
+                sticky: rfrac % 2 == 0,
+            });
+            let f = ctx.exec(spec);
+            ctx.stats.fault("endless-input.read-failure-before-the-limit", 1);
+            if let Outcome::Abort(why) = &f.outcome {
+                return viol(
+                    "C14.terminates",
+                    format!("after a read failure at byte {k} (before the limit was reached) jawk does not end the run: {why}"),
+                );
+            }
+            if f.obs.rfault_delivered && f.outcome.is_ok() {
+                return viol(
+                    "C14.terminates",
+                    format!("reading the endless input failed at byte {k}, before the limit was reached, but the run returned Ok"),
+                );
+            }
+        }
         let frac = case.param("sinkfail");
         if frac > 0 && !l1.obs.stdout.is_empty() && l1.outcome.is_ok() {
             let k = ((frac as usize - 1) * l1.obs.stdout.len()) / 1000;
             let mut spec = case_spec(case, &prefix);
             spec.byte_budget = prefix.len().max(d) + BUDGET_EXTRA;
             spec.max_events = 2_000_000;
-            spec.out.fail = Some(Fault {
-                at: k,
-                kind: ErrKind::BrokenPipe,
-                sticky: true,
-            });
+            if frac % 3 == 0 {
+                // a sink that stops accepting bytes (Ok(0)) instead of failing
+                spec.out.zero_at = Some(k);
+            } else {
+                spec.out.fail = Some(Fault {
+                    at: k,
+                    kind: ErrKind::BrokenPipe,
+                    sticky: true,
+                });
+            }
             let f = ctx.exec(spec);
-            ctx.stats.fault("endless-input.failing-sink", 1);
+            ctx.stats.fault(if frac % 3 == 0 { "endless-input.sink-accepts-nothing" } else { "endless-input.failing-sink" }, 1);
             if let Outcome::Abort(why) = &f.outcome {
                 return viol(
                     "C14.terminates",
